@@ -20,6 +20,7 @@ import fractions
 import pathlib
 import os
 import struct
+import sys
 
 import numpy as np
 
@@ -248,6 +249,20 @@ def _make_object(kind, arg):
         return collections.OrderedDict((str(k), k) for k in arg)
     if kind == 'frozenset':
         return frozenset(arg)
+    if kind == 'cyclic':
+        # a small tree whose nodes know their parent, and one list referenced twice
+        root = {'name': 'root', 'children': [], 'level': arg}
+        for k in range(2):
+            root['children'].append({'name': k, 'parent': root})
+        grid = [0.0, 1.0, float(arg)]
+        return {'tree': root, 'bins': grid, 'edges': grid}
+    if kind == 'deep':
+        # a chain of lists, each holding the next one (picklable, but deeper than what a
+        # recursive Python function can walk under the default recursion limit)
+        chain = None
+        for _ in range(arg):
+            chain = [chain]
+        return chain
     raise ValueError(kind)
 
 
@@ -274,27 +289,40 @@ def materialise(val, status_enum):
 
 def same(left, right):
     """Type-strict deep equality; floats by bit pattern (NaN == same NaN,
-    0.0 != -0.0), arrays by dtype, shape and bytes."""
-    if type(left) is not type(right):
-        return False
-    if isinstance(left, float):
-        return struct.pack('<d', left) == struct.pack('<d', right)
-    if isinstance(left, np.ndarray):
-        return (left.dtype == right.dtype and left.shape == right.shape
-                and left.tobytes() == right.tobytes())
-    if isinstance(left, (list, tuple)):
-        return len(left) == len(right) and all(same(a, b) for a, b in zip(left, right))
-    if isinstance(left, dict):
-        if len(left) != len(right):
+    0.0 != -0.0), arrays by dtype, shape and bytes.  Iterative (payloads may be
+    deeper than the recursion limit); containers that contain themselves are
+    compared as graphs (a pair of containers met again is taken as equal)."""
+    seen = set()
+    todo = [(left, right)]
+    while todo:
+        left, right = todo.pop()
+        if type(left) is not type(right):
             return False
-        rkeys = {(type(k), k) for k in right}
-        for key, val in left.items():
-            if (type(key), key) not in rkeys:
+        if isinstance(left, float):
+            if struct.pack('<d', left) != struct.pack('<d', right):
                 return False
-            if not same(val, right[key]):
+        elif isinstance(left, np.ndarray):
+            if not (left.dtype == right.dtype and left.shape == right.shape
+                    and left.tobytes() == right.tobytes()):
                 return False
-        return True
-    return left == right
+        elif isinstance(left, (list, tuple, dict)):
+            pair = (id(left), id(right))
+            if pair in seen:
+                continue
+            seen.add(pair)
+            if len(left) != len(right):
+                return False
+            if isinstance(left, dict):
+                rkeys = {(type(k), k): k for k in right}
+                for key, val in left.items():
+                    if (type(key), key) not in rkeys:
+                        return False
+                    todo.append((val, right[rkeys[(type(key), key)]]))
+            else:
+                todo.extend(zip(left, right))
+        elif left != right:
+            return False
+    return True
 
 
 def diff_keys(left, right):
